@@ -361,6 +361,6 @@ def run(chk, prog):
             chk.check(covered, "R6", A.loc(m.fns[op], {"line": a_.line}), "%s stores %s[%s] on every path (it is under the condition `%s`, and the other case stores nothing there: "
                       "the cell keeps what an earlier request left)" % (op, a_.base, ", ".join(str(i_) for i_ in a_.idx), A.show(pg[0][0])[:50]),
                       "%s:result-not-always-stored:%s" % (op, a_.base))
-    chk.floor("R6-result-stores", n6, 3)
+    chk.floor("R6-result-stores", n6, 1)
     chk.notes.append("C18: dirty/read/rewrite footprints of every work buffer for every ordered pair of operations "
                      "(updateCSR, wakePotential, padBunchProfiles); accumulation resets; plan/buffer binding only at construction.")
